@@ -17,8 +17,10 @@ def fV3s (j : Json) (k : String) : R (List (V3 Rat)) := field j k >>= jList jV3
 
 def ofV3 (v : V3 Rat) : Json := ofRats [v.x, v.y, v.z]
 
-def ofOut (o : Out Rat) : Json :=
-  obj [("fa", ofRats o.fa), ("fc", ofList ofV3 o.fc), ("fn", ofList ofV3 o.fn), ("cv", ofRats o.cv), ("cc", ofList ofV3 o.cc)]
+/-- `hyp` = the decidable hypothesis (`wf1` / `wf2` / `wf3`) of the equivariance theorem for this grid -/
+def ofOut (o : Out Rat) (hyp : Bool) : Json :=
+  obj [("fa", ofRats o.fa), ("fc", ofList ofV3 o.fc), ("fn", ofList ofV3 o.fn), ("cv", ofRats o.cv), ("cc", ofList ofV3 o.cc),
+       ("hyp", Json.bool hyp)]
 
 def jInc1 (j : Json) : R (Inc1 Rat) := do
   pure ⟨← fNat j "f", ← fInt j "s", ← fV3 j "x"⟩
@@ -43,15 +45,18 @@ def geom (j : Json) : R Json := do
   let dim ← fNat j "dim"
   let g ← field j "grid"
   match dim with
+  | 0 =>
+    let gr : Grid0 Rat := ⟨← fV3s g "nodes", ← fV3s g "centers"⟩
+    pure (ofOut (geom0 gr) true)
   | 1 =>
     let gr : Grid1 Rat := ⟨← fV3s g "nodes", ← fV3s g "faces", ← field g "cells" >>= jList jCell1⟩
-    pure (ofOut (geom1 asqrt gr))
+    pure (ofOut (geom1 asqrt gr) (wf1 gr))
   | 2 =>
     let gr : Grid2 Rat := ⟨← fV3s g "nodes", ← field g "faces" >>= jList jPair, ← field g "cells" >>= jList (jList jInc2)⟩
-    if geom2Err asqrt gr then pure (err "RuntimeError") else pure (ofOut (geom2 asqrt gr))
+    if geom2Err asqrt gr then pure (err "RuntimeError") else pure (ofOut (geom2 asqrt gr) (wf2 asqrt gr))
   | 3 =>
     let gr : Grid3 Rat := ⟨← field g "faces" >>= jList (jList jV3), ← field g "cells" >>= jList (jList jFace3)⟩
-    if geom3Err asqrt gr then pure (err "ValueError") else pure (ofOut (geom3 asqrt gr))
+    if geom3Err asqrt gr then pure (err "ValueError") else pure (ofOut (geom3 asqrt gr) (wf3 asqrt gr))
   | _ => throw s!"unsupported dim {dim}"
 
 def ofMat (R : Mat3 Rat) : Json := ofList ofV3 [R.r1, R.r2, R.r3]
@@ -95,12 +100,18 @@ def motion (j : Json) : R Json := do
     pure (obj [("isrot", Json.bool (decide M.R.IsRot)), ("pts", ofList ofV3 (pts.map (act M)))])
   | _ => throw "q needs four entries"
 
+/-- op `diam`: {"cells":[[node coordinates of a cell],..]} → `Grid.cell_diameters()` -/
+def diam (j : Json) : R Json := do
+  let cells ← field j "cells" >>= jList (jList jV3)
+  pure (ofRats (cells.map (cellDiam asqrt)))
+
 def step (j : Json) : R Json := do
   let op ← fStr j "op"
   match op with
   | "geom" => geom j
   | "motion" => motion j
   | "mapgrid" => mapgrid j
+  | "diam" => diam j
   | _ => throw s!"unknown op {op}"
 
 def main : IO Unit := runPure step
